@@ -31,6 +31,11 @@ func n4For(shard int) string {
 // runE2EShards runs nshards workers (each driving its own agent) and validates each trace with the
 // given cfg of module TraceE2E. mk returns the parameters of shard i.
 func runE2EShards(c *core.Ctx, task string, nshards int, cfg string, mk func(i int) interface{}) []e2eShard {
+	return runE2EMixed(c, nshards, cfg, func(i int) (string, interface{}) { return task, mk(i) })
+}
+
+// runE2EMixed is runE2EShards with a worker task per shard.
+func runE2EMixed(c *core.Ctx, nshards int, cfg string, mk func(i int) (string, interface{})) []e2eShard {
 	res := make([]e2eShard, nshards)
 
 	var wg sync.WaitGroup
@@ -49,7 +54,7 @@ func runE2EShards(c *core.Ctx, task string, nshards int, cfg string, mk func(i i
 
 			r := &res[i]
 			r.idx = i
-			params := mk(i)
+			task, params := mk(i)
 			pb, _ := json.Marshal(params)
 
 			var pm map[string]interface{}
